@@ -463,6 +463,14 @@ pub const P_M1_OVER2: Fq = Fq(FqRepr([
 #[PrimeFieldGenerator = "2"]
 pub struct Fq(pub(super) FqRepr);
 
+#[cfg(pairing_plus_verif)]
+impl Fq {
+    /// verification hook: the raw (Montgomery form) limbs
+    pub fn verif_raw(&self) -> FqRepr {
+        self.0
+    }
+}
+
 /// # Safety
 pub const unsafe fn transmute(r: FqRepr) -> Fq {
     Fq(r)
